@@ -33,7 +33,7 @@ EventOK(e) == e.panic = "" /\ OpOK(e)
 
 \* diagnostics printed with a rejected bricks event: a lost / invented member
 Diag(e) ==
-  IF e.panic # "" THEN <<"panic">>
+  IF e.panic # "" THEN <<"no result", e.panic>>
   ELSE IF e.dom # "bricks" THEN <<"ci">>
   ELSE CASE e.op = "normalize" -> <<Witness(Lang(e.x), Lang(e.r)), Witness(Lang(e.r), Lang(e.x))>>
          [] e.op = "append" -> <<Witness(Cat(Lang(e.x), Lang(e.y), L), Lang(e.r))>>
